@@ -386,6 +386,55 @@ func (s *c07Sys) lastCacheRec(u string) *c07Rec {
 // ---- backends without a cache: htpasswd and external command, once each
 
 func c07OtherBackends(c *vfeng.Ctx) {
+	// LDAP with disable_password_cache: nothing is remembered, an outage refuses everybody
+	{
+		c07InstallHooks()
+		c07D.pw = map[string]int{"alice": 1, "bob": 1}
+		c07D.down = map[string]bool{}
+		w := vfNewWorld(vfOpts{CertBackends: []string{"password"}, WebUIBackends: []string{"password"}, NoPasswordFile: true,
+			Tweak: func(st *RuntimeState) {
+				st.Config.Ldap.LDAPTargetURLs = "ldaps://ldap1.example.com,ldaps://ldap2.example.com"
+				st.Config.Ldap.BindPattern = "uid=%s,ou=people,dc=example,dc=com"
+				st.Config.Ldap.DisablePasswordCache = true
+				pc, err := ldappw.New(strings.Split(st.Config.Ldap.LDAPTargetURLs, ","), []string{st.Config.Ldap.BindPattern}, 3, nil, nil, logger)
+				vfMust(err)
+				st.passwordChecker = pc
+			}})
+		login := func(pw string) bool {
+			r := w.Do(vfReq{Method: "POST", Path: "/api/v0/login", Form: url.Values{"username": {"alice"}, "password": {pw}}}.Build())
+			return r.Code == 200 && r.Cookie(authCookieName) != nil
+		}
+		steps := []struct {
+			name string
+			do   func()
+			pw   string
+			want bool
+		}{
+			{"up/current", func() {}, c07Pw("alice", 1), true},
+			{"up/wrong", func() {}, "nope", false},
+			{"down/current", func() { c07D.down = map[string]bool{"ldap1.example.com": true, "ldap2.example.com": true} }, c07Pw("alice", 1), false},
+			{"first-down/current", func() { c07D.down = map[string]bool{"ldap1.example.com": true} }, c07Pw("alice", 1), true},
+			{"changed/old", func() { c07D.down = map[string]bool{}; c07D.pw["alice"] = 2 }, c07Pw("alice", 1), false},
+			{"changed+down/old", func() { c07D.down = map[string]bool{"ldap1.example.com": true, "ldap2.example.com": true} }, c07Pw("alice", 1), false},
+			{"changed+down/new", func() {}, c07Pw("alice", 2), false},
+		}
+		for _, stp := range steps {
+			stp.do()
+			got := login(stp.pw)
+			c.Eval(1)
+			var n int
+			w.state.db.QueryRow("select count(*) from expiring_signed_user_data").Scan(&n)
+			switch {
+			case got != stp.want:
+				c.Violate("C07|no-cache-deployment|verdict|"+stp.name, fmt.Sprintf("disable_password_cache: step %s accepted=%v want %v", stp.name, got, stp.want), map[string]interface{}{"backend": "ldap-nocache", "step": stp.name})
+			case n != 0:
+				c.Violate("C07|no-cache-deployment|hash-stored", fmt.Sprintf("disable_password_cache: %d signed records stored after step %s", n, stp.name), map[string]interface{}{"backend": "ldap-nocache", "step": stp.name})
+			default:
+				c.Class(fmt.Sprintf("ldap-nocache|%s|accepted=%v", stp.name, got), stp.name)
+			}
+		}
+		w.Close()
+	}
 	// htpasswd
 	w := vfNewWorld(vfOpts{CertBackends: []string{"password"}, WebUIBackends: []string{"password"}})
 	for _, tc := range []struct {
